@@ -536,6 +536,20 @@ func EqualNorm(t *gen.T, w, g reflect.Value, omit bool, path string) string {
 				return d
 			}
 		}
+	case gen.KArray:
+		for i := 0; i < w.Len(); i++ {
+			if t.Elem.K == gen.KUint8 {
+				if w.Index(i).Uint() != g.Index(i).Uint() {
+					return fmt.Sprintf("%s[%d]: byte %d != %d", path, i, w.Index(i).Uint(), g.Index(i).Uint())
+				}
+			} else if d := EqualNorm(t.Elem, w.Index(i), g.Index(i), false, fmt.Sprintf("%s[%d]", path, i)); d != "" {
+				return d
+			}
+		}
+	case gen.KUint8:
+		if w.Uint() != g.Uint() {
+			return fmt.Sprintf("%s: %d != %d", path, w.Uint(), g.Uint())
+		}
 	case gen.KMap:
 		if w.Len() != g.Len() {
 			return fmt.Sprintf("%s: map len %d != %d", path, w.Len(), g.Len())
